@@ -23,6 +23,7 @@ inlined statements are analysed in every caller's context."""
 import copy
 import json
 import os
+import re
 
 HERE = os.path.dirname(os.path.abspath(__file__))
 BASELINE = os.path.join(HERE, "baseline_fns.json")
@@ -105,6 +106,51 @@ def _rename(x, mapping):
     return x
 
 
+TYPE_KEYS = ("ty", "self_ty", "dest_ty", "impl_self", "sig_output")
+
+
+def _generic_names(callee):
+    """Names of the callee's type parameters, in declaration order as far as the recorded bounds show them (`D: Digest`)."""
+    out = []
+    for b in callee.get("bounds") or []:
+        nm = b.split(":", 1)[0].strip()
+        if re.match(r"^[A-Z]\w*$", nm) and nm not in out:
+            out.append(nm)
+    return out
+
+
+def _type_head(ty):
+    refs = 0
+    while ty.startswith("&"):
+        refs += 1
+        ty = ty[1:].lstrip()
+        if ty.startswith("mut "):
+            ty = ty[4:]
+    return {"refs": refs, "k": "adt", "path": ty.split("<", 1)[0]}
+
+
+def _subst_types(x, mp, rx):
+    """Copy of a facts fragment of a generic helper with its type parameters replaced by the call site's type arguments — in
+    type-valued fields only (never in item paths, where `T` is part of std's own names)."""
+    if isinstance(x, dict):
+        out = {}
+        for k, v in x.items():
+            if k in TYPE_KEYS and isinstance(v, str):
+                out[k] = rx.sub(lambda m: mp[m.group(0)], v)
+            elif k in ("args", "sig_inputs") and isinstance(v, list) and all(isinstance(a, str) for a in v):
+                out[k] = [rx.sub(lambda m: mp[m.group(0)], a) for a in v]
+            elif k in ("self_head", "head", "sig_output_head") and isinstance(v, dict) and v.get("k") == "param" and v.get("path") in mp:
+                h = _type_head(mp[v["path"]])
+                h["refs"] += v.get("refs", 0)
+                out[k] = h
+            else:
+                out[k] = _subst_types(v, mp, rx)
+        return out
+    if isinstance(x, list):
+        return [_subst_types(v, mp, rx) for v in x]
+    return x
+
+
 def _descendants(j, path):
     out, frontier = [], [path]
     while frontier:
@@ -183,13 +229,22 @@ def _inline_into(caller, cands, done, j):
         if len(t.get("args", [])) != callee.get("arg_count", 0):
             i += 1
             continue
+        # a generic helper: its type parameters become the call site's type arguments
+        gn = _generic_names(callee)
+        fnj = (t.get("func") or {}).get("fn") or {}
+        targs = (fnj.get("resolved") or {}).get("args") or fnj.get("args") or []
+        tmap = None
+        if gn and len(gn) == len(targs) and any(a != b for a, b in zip(gn, targs)):
+            tmap = dict(zip(gn, targs))
+            trx = re.compile(r"\b(%s)\b" % "|".join(re.escape(n) for n in gn))
+            callee = _subst_types(callee, tmap, trx)
         desc = _descendants(j, cp)
         if desc:
             k = caller.get("_inl_n", 0)
             caller["_inl_n"] = k + 1
             mapping = {d["path"]: "%s::{inl#%d}%s" % (caller["path"], k, d["path"][len(cp):]) for d in desc}
             for d in desc:
-                nd = _rename(d, mapping)
+                nd = _rename(d if tmap is None else _subst_types(d, tmap, trx), mapping)
                 nd["parent"] = mapping.get(d.get("parent"), caller["path"])
                 nd["inlined_from"] = cp
                 j["bodies"].append(nd)
